@@ -46,6 +46,33 @@ def placement_cases(ctx, n):
     return out
 
 
+def large_table_cases(ctx, schemes=None):
+    """one database per table scheme whose tables hold more than 4096 entries (8192 in the thorough tier), spread over
+    hundreds of keywords: anything that batches, buffers or merges partial sorts works on ONE batch below that"""
+    rng = ctx.rng
+    out = []
+    target = ctx.pick(4300, 8400)
+    for name in (schemes or so.TABLE_SCHEMES):
+        cfg = se.grid(name, rng, 1)[0]
+        if name == "PiPack":
+            cfg.update(param_B=1)
+        if name == "PiPtr":
+            cfg.update(param_B=1, param_b=1)            # one dictionary entry per identifier
+        if name == "Pi2Lev":
+            n_kw, per = target, 1                        # the dictionary has one entry per keyword
+        else:
+            n_kw, per = target // 6, 6
+        ids = max(cfg.get("param_identifier_size", 8), 4)
+        if "param_identifier_size" in cfg:
+            cfg["param_identifier_size"] = ids
+        db = {}
+        for k in range(n_kw):
+            w = b"k" + k.to_bytes(3, "big") + bytes(rng.getrandbits(8) for _ in range(2))
+            db[w] = [(k * per + j + 1).to_bytes(4, "big") + bytes(rng.getrandbits(8) for _ in range(ids - 4)) for j in range(per)]
+        out.append(dict(name=name, cfg=se.finalize_cfg(name, cfg, db), db=db, present=list(db)[:40], absent=[], profile=f"large-table-{target}"))
+    return out
+
+
 def correspond(ctx):
     res = Result()
     n_cfg = ctx.pick(4, 10)
@@ -66,13 +93,17 @@ def correspond(ctx):
         res.evaluations += 1
         res.nontrivial.add(sk.case_sig(c["name"], c["cfg"], c["db"], c["profile"]))
         so.c06_order(res, c, ctx.rng)
+    for c in large_table_cases(ctx):
+        res.evaluations += 1
+        res.count("large tables")
+        so.c06_order(res, c, ctx.rng)
     pc = placement_cases(ctx, ctx.pick(2, 6))
     for c in pc:
         res.evaluations += 1
         res.nontrivial.add(sk.case_sig(c["name"], c["cfg"], c["db"], c["profile"]))
         so.c06_placement(res, c)
     res.extra["schemes_modelled"] = list(sc.MODELLED)
-    res.rule = (f"(a) table schemes: {n_cfg} configurations x {len(se.PROFILES)} profiles plus databases whose levels need no padding; the "
+    res.rule = (f"(a) table schemes: {n_cfg} configurations x {len(se.PROFILES)} profiles plus databases whose levels need no padding, plus one database per scheme whose tables hold more than 4096 (thorough: 8192) entries over hundreds of keywords (real code only); the "
                 "keyword order is permuted, every table of both indexes must be sorted and the real labels must come in the same order; "
                 "(b) PiPtr / Pi2Lev / SSE1 / DP17: databases with >= 12 array-resident blocks as one long list, three lists and many lists; "
                 "two setups (same key where placement is random, fresh key where it is key-derived) must not read the same slots")
